@@ -30,7 +30,7 @@ Qed.
 
 Theorem Inv_init : Inv init.
 Proof.
-  constructor; unfold init; cbn [chans senders subs streams adds drops tasks reader socket incoming dead cloned].
+  constructor; unfold init; cbn [chans senders subs streams adds drops tasks reader socket incoming dead arcs].
   - cbn. lia.
   - cbn. repeat constructor; cbn; intuition discriminate.
   - intros k c [H|[H|[H|[]]]]; inversion H; subst; cbn; split; lia.
